@@ -40,7 +40,7 @@ func (fr *FuncRun) variadicElems(f *Frame, st *State, arg ssa.Value, av Val) ([]
 	eh := fr.w.ElemHeap(st2.Elem())
 	var out []string
 	for i := int64(0); i < at.Len(); i++ {
-		out = append(out, fr.def(fr.w.SortOf(st2.Elem()), sel(sel(fr.heapCur(st, eh), "(s-arr "+av.T+")"), fmt.Sprintf("(+ (s-off %s) %d)", av.T, i))))
+		out = append(out, fr.def(fr.w.SortOf(st2.Elem()), fr.w.At(st2.Elem(), sel(fr.heapCur(st, eh), "(s-arr "+av.T+")"), "(s-off "+av.T+")", fmt.Sprintf("%d", i))))
 	}
 	return out, true
 }
@@ -142,6 +142,45 @@ func (fr *FuncRun) stubCall(f *Frame, st *State, c *ssa.CallCommon, callee *ssa.
 			}
 		}
 		return Val{T: "0", S: sInt}, true
+	}
+	switch full {
+	case "github.com/prysmaticlabs/go-bitfield.NewBitlist":
+		used()
+		ref := fr.allocRef("bitlist")
+		bl, bs := w.heap("BitLen", "(Array Int Int)"), w.heap("BitSet", "(Array Int (Array Int Bool))")
+		fr.curWriteFresh = true
+		fr.heapSet(st, bl, sto(fr.heapCur(st, bl), ref, args[0].T))
+		fr.heapSet(st, bs, sto(fr.heapCur(st, bs), ref, "((as const (Array Int Bool)) false)"))
+		fr.curWriteFresh = false
+		ln := fr.fresh(sInt, "bitlistbytes")
+		fr.assume(st, "(> "+ln+" 0)")
+		return Val{T: fr.def(sSlice, fmt.Sprintf("(mk-slice %s 0 %s %s)", ref, ln, ln)), S: sSlice, FreshArr: true}, true
+	case "(github.com/prysmaticlabs/go-bitfield.Bitlist).SetBitAt":
+		used()
+		bl, bs := w.heap("BitLen", "(Array Int Int)"), w.heap("BitSet", "(Array Int (Array Int Bool))")
+		arr := "(s-arr " + args[0].T + ")"
+		cur := fr.heapCur(st, bs)
+		inRange := "(< " + args[1].T + " " + sel(fr.heapCur(st, bl), arr) + ")"
+		saved := fr.curWriteFresh
+		fr.curWriteFresh = args[0].FreshArr
+		fr.heapSet(st, bs, sto(cur, arr, ite(inRange, sto(sel(cur, arr), args[1].T, args[2].T), sel(cur, arr))))
+		fr.curWriteFresh = saved
+		return Val{T: "0", S: sInt}, true
+	case "(github.com/prysmaticlabs/go-bitfield.Bitlist).Len":
+		used()
+		bl := w.heap("BitLen", "(Array Int Int)")
+		return Val{T: fr.def(sInt, sel(fr.heapCur(st, bl), "(s-arr "+args[0].T+")")), S: sInt}, true
+	case "(github.com/prysmaticlabs/go-bitfield.Bitlist).BitAt":
+		used()
+		bl, bs := w.heap("BitLen", "(Array Int Int)"), w.heap("BitSet", "(Array Int (Array Int Bool))")
+		arr := "(s-arr " + args[0].T + ")"
+		return Val{T: fr.def(sBool, and("(< "+args[1].T+" "+sel(fr.heapCur(st, bl), arr)+")", sel(sel(fr.heapCur(st, bs), arr), args[1].T))), S: sBool}, true
+	}
+	if callee.Name() == "IsZero" && sig.Recv() != nil && sig.Params().Len() == 0 {
+		if _, isArr := sig.Recv().Type().Underlying().(*types.Array); isArr {
+			used()
+			return Val{T: fr.def(sBool, eq(args[0].T, w.Zero(sig.Recv().Type()))), S: sBool}, true
+		}
 	}
 	// time.Time / time.Duration arithmetic: nanosecond model
 	if strings.HasPrefix(full, "(time.Time).") || strings.HasPrefix(full, "(time.Duration).") || strings.HasPrefix(full, "time.") {
